@@ -196,6 +196,9 @@ def run(ctx):
     r.done()
     S.r12_sinks(ctx)
     D.r11_1_calltime_writes(ctx, modules=('yatiml.dumper', 'yatiml.representers'))
+    # the load-back clause: a JSON string is a str-tagged scalar and must be read back as a string and nothing else - built-in
+    # scalar types are accepted on their exact tag only
+    S.r01_5_scalar(ctx)
     ctx.extra['transducer_cells'] = len(T)
     ctx.extra['sample_cells'] = {'%s/%s/%s' % k: [list(a) for a in v['actions']] for k, v in list(sorted(
         T.items(), key=lambda x: str(x[0])))[:6]}
